@@ -1,10 +1,13 @@
 /-
-  Props/C13.lean — property theorems for C13 (pure part: reply grammar, scope, ordering).
+  Props/C13.lean — property theorems for C13 (pure part: reply grammar, scope, ordering, and the
+  directory `trash-restore` restores from).
 -/
 import TrashVerif.Spec.C13
+import TrashVerif.Model.Cmds
+import TrashVerif.Props.C07
 import TrashVerif.Proofs.C13
 namespace TrashVerif.C13
-open TrashVerif Bytes
+open TrashVerif Bytes FS
 
 /-- `int()` as modelled accepts exactly the integer literals of the grammar. -/
 theorem pyInt_iff (s : Bytes) (n : Nat) : pyInt s = .nat n ↔ IntLit s n := Proofs.C13.pyInt_iff s n
@@ -49,6 +52,49 @@ theorem offered_sorted_path (es : List Entry) :
 
 /-- … and `--sort none` keeps the scan order. -/
 theorem offered_none (es : List Entry) : sortEntries .none es = es := rfl
+
+/-! ### the directory to restore from
+
+`RestoreArgParser` turns the working directory and the positional argument into the directory whose
+entries are offered: `restoreScopeDir curdir path = normpath(join(curdir, path))`.  (Until the fix
+"trash-restore from / offered nothing" the code normalised `curdir + "/" + path`, which from the
+working directory "/" without argument gave "//", in whose scope no location lies — a defect found by
+the counterexample theorem `root_cwd_no_argument_offers_nothing` of Props/C02Cmd.lean, now
+`C02Cmd.root_cwd_no_argument_offers_everything`.)  A canonical working directory is a list of names
+that are non-empty, free of '/', not "." or ".." (`C07.GoodNames`); `toStr` is its spelling, "/" for
+the root `[]`. -/
+
+/-- (a) Without a directory argument the scope is the working directory itself — for EVERY canonical
+    working directory, the root `cwd = []` included. -/
+theorem scope_dir_default (cwd : CPath) (hn : C07.GoodNames cwd) :
+    restoreScopeDir (toStr cwd) [] = toStr cwd := Proofs.C13.scope_dir_default cwd hn
+
+/-- (b) An absolute directory argument is taken as it is (normalised); the working directory —
+    whatever string it is — plays no part. -/
+theorem scope_dir_absolute (cwdStr path : Bytes) (h : startsWith path [slash] = true) :
+    restoreScopeDir cwdStr path = normpath path := Proofs.C13.scope_dir_absolute cwdStr path h
+
+/-- (c) A plain relative directory argument `c₁/…/cₖ` (canonical names joined by '/') extends the
+    working directory by its components — again for every canonical working directory, the root
+    included (`comps = []` is (a)). -/
+theorem scope_dir_relative (cwd comps : CPath) (hn : C07.GoodNames cwd) (hc : C07.GoodNames comps) :
+    restoreScopeDir (toStr cwd) (joinWith [slash] comps) = toStr (cwd ++ comps) :=
+  Proofs.C13.scope_dir_relative cwd comps hn hc
+
+/-- (d) From the root without a directory argument EVERY location is in scope (no hypothesis on
+    `loc` is needed: the scope is "/", which `inScope` accepts outright). -/
+theorem scope_root_offers_all (loc : Bytes) : inScope (restoreScopeDir (toStr []) []) loc = true :=
+  Proofs.C13.scope_root_offers_all loc
+
+example : restoreScopeDir (b "/") [] = b "/" ∧ restoreScopeDir (b "/p/q") [] = b "/p/q" ∧
+          restoreScopeDir (toStr [b "p", b "q"]) [] = toStr [b "p", b "q"] := by decide +kernel
+example : restoreScopeDir (b "/p") (b "/q//r/../s/") = b "/q/s" ∧ restoreScopeDir (b "/") (b "/") = b "/" ∧
+          restoreScopeDir (b "/p") (b "//q") = b "//q" := by decide +kernel
+example : restoreScopeDir (b "/") (b "q/r") = b "/q/r" ∧ restoreScopeDir (b "/p") (b "q/r") = b "/p/q/r" ∧
+          restoreScopeDir (toStr [b "p"]) (joinWith [slash] [b "q", b "r"]) = toStr ([b "p"] ++ [b "q", b "r"]) := by
+  decide +kernel
+example : inScope (restoreScopeDir (b "/") []) (b "/p/x") = true ∧ inScope (restoreScopeDir (b "/") []) (b "/") = true ∧
+          inScope (restoreScopeDir (b "/q") []) (b "/p/x") = false := by decide +kernel
 
 example : parseIndexes (b "0, 2-3,+1") 4 = .ok [0, 2, 3, 1] ∧ parseIndexes (b "1-2-3") 9 = .crash ∧
           parseIndexes (b "3-1") 9 = .ok [] ∧ parseIndexes (b "4") 4 = .invalid := by decide +kernel
